@@ -65,6 +65,11 @@ CHECKS = {
     technique="TLA+ model checking (TLC, complete graph of Hal.tla for camera and storage x every driver answer) bound to camera.c/storage.c/driver.c by per-transition replay, exhaustive bounded-history walks and implementation-driven exploration whose call logs are judged by the TLA+ observation spec DeviceProtocolObs in TLC",
     text="Hal.tla models the HAL state field against the driver-side truth for every HAL function x every status/state the driver may answer (incl. NULL vtable entries, describe/open/close failures, out-of-range states); TLC explores the complete graph (so histories of any length) and checks: no stop without a successful start, no frame/append outside running, exactly one close per open and nothing afterwards, reported state follows the driver's last answer. Every exported transition and every history to depth 6 (8 thorough) is replayed into the real wrappers with a scripted mock driver whose close poisons and shadow-copies the released block (any later vtable call or write is an event); the real wrappers' own state graph is explored exhaustively; all call logs are judged by DeviceProtocolObs.",
     note="Trusted: TLC; the mock driver's poisoning (plain reads of a released block are only visible to the ASan instrument build); one device per history; storage drivers' returned state is taken as the driver-side truth (strict reading available as a switch, reported separately)."),
+ "C12": dict(
+    category="model_checking", design_ref="DESIGN.md section 6 (C12), section 15",
+    technique="TLA+ specification of regex-AST matching and first-match selection over the real enumeration table, enumerated by TLC; the (kind, pattern, expected) table and seeded arbitrary byte strings are run against the real device manager and judged by the TLA+ observation spec DeviceSelectObs in TLC",
+    text="DeviceSelect.tla defines whole-name, case-insensitive matching of a regex AST (literals, classes, any, grouping, star/plus/opt, concatenation, alternation) twice (span-splitting and position automaton, checked to agree), Render(ast) and Select(kind, ast) = first enumerated index of that kind; the enumeration table is read from the real device_manager at run time. TLC enumerates every canonical AST up to size 5 (6 thorough) and emits expected results; the harness runs them, case-flipped / NUL-padded / length-limited variants, select_first/default, every index incl. out of range, opens every identifier, and 10^4 (10^5) seeded arbitrary / malformed byte strings in supervised child processes against the real device.manager.cpp + loader.c + the common driver .so built from the tree, in stagings with absent / broken / duplicate / synthetic driver libraries; DeviceSelectObs judges every event (exact rule in the modelled grammar, weak rule 'error or an enumerated device of that kind, never a crash/exception' elsewhere).",
+    note="Trusted: TLC; libstdc++ regex only through the code under test; exact expectations only for the modelled grammar and size bounds; pathological backtracking patterns are recorded as SLOW, never judged; embedded NUL bytes in a pattern get the weak rule."),
 }
 
 def main():
